@@ -98,7 +98,7 @@ def line_at(path, off, bgzf):
 
 def gfa_layout(text):
     """A GFA text in another, equally valid layout, chosen by a stable hash of the text: (1) segment by segment, every S line
-    followed by the L lines that leave it - so a link may come BEFORE the S line of the segment it enters; (2) the same graph
+    preceded by the L lines that leave it - so a link comes BEFORE the S lines of its segments; (2) the same graph
     without a line terminator after its last line; (3) both; (0) as given. Header / other records keep their place at the top."""
     h = zlib.crc32(text.encode()) % 4
     if h == 0 or os.environ.get("VERIF_PLAIN_CLI") == "1":
@@ -116,12 +116,12 @@ def gfa_layout(text):
             by_from.setdefault(l.split("\t")[1], []).append(l)
         out = list(O)
         seen = set()
-        for sl in reversed(S):       # last segment first: most links then precede the S line of the segment they enter
+        for sl in S:                 # the links that leave a segment stand BEFORE its S line
             sid = sl.split("\t")[1]
-            out.append(sl)
             if sid not in seen:
                 out += by_from.pop(sid, [])
                 seen.add(sid)
+            out.append(sl)
         for rest in by_from.values():      # links of segments without an S line (left as they are)
             out += rest
         lines = out
